@@ -2,9 +2,9 @@ import Qryn.Proofs.ReadCode
 import Qryn.Proofs.ReadPipe
 /-! # C12 — no query can crash, hang or leak work on the read side   (PARTIAL: bookkeeping proved, runtime explored)
 
-Property theorems only. Models: `Qryn.Read` (Params.lean: controllers' parameter handling, `FixPeriodPlanner`,
+Property theorems only. Models: `Qryn.ReadSide` (Params.lean: controllers' parameter handling, `FixPeriodPlanner`,
 aggregators, `LimitPlanner`, scanner buffer, TraceQL rows, Tempo trace id, with Go run-time panics as `Fault` values
-and the goroutine that runs each piece deciding what a fault means) and `Qryn.Read.Pipe` (Pipeline.lean: the channel
+and the goroutine that runs each piece deciding what a fault means) and `Qryn.ReadSide.Pipe` (Pipeline.lean: the channel
 pipeline as a transition system). `Gen.ReadSide` is regenerated from /repo on every run: every `go` statement of the
 request path with whether it recovers, every HTTP handler with whether it starts with `defer tamePanic`, the guard
 conditions of the modelled arithmetic as source text, and the constants.
@@ -12,7 +12,7 @@ conditions of the modelled arithmetic as source text, and the constants.
 What is NOT proved here (explored in child processes by the harness instead): the Go scheduler, memory, context
 propagation inside `database/sql`, Prometheus' engine, the third-party parsers. -/
 namespace Qryn.C12
-open Qryn.Read Qryn.Gen
+open Qryn.ReadSide Qryn.Gen
 
 /-! ## T: the source still says what the model says -/
 
@@ -35,7 +35,7 @@ theorem aggregator_guards_as_modelled :
     ReadSide.aggStreamCap = 4000000000 := by decide
 
 theorem limit_conditions_as_modelled :
-    ReadSide.limitConds = ["sent >= limit", "sent+len(entries) < limit", "ctx.CancelCtx != nil"] := by decide
+    ReadSide.limitConds = ["limit == 0", "sent >= limit", "sent+len(entries) < limit", "ctx.CancelCtx != nil"] := by decide
 
 /-- the goroutines of the request path that run WITHOUT a recover (pure drains and `close` one-liners left out).
     Each is covered below or has no fault site:
@@ -243,7 +243,7 @@ theorem matrix_step_loop (step lim i : Int) :
    fun h hi fuel => matrixStepLoop_diverges step h lim fuel i hi⟩
 
 /-! ## the channel pipeline terminates -/
-open Qryn.Read.Pipe
+open Qryn.ReadSide.Pipe
 
 /-- **pipeline_terminates.** For every number of stages, every result set (batches with arbitrary futures: how many
     batches each one produces at each later stage, where an error strikes), every closing output of the stages, and
